@@ -150,6 +150,8 @@ class Interp:
         self.poll_hook = None              # fn(interp, pin, future_value) -> output value or None
         self.bv_arith = None               # fn(interp, op, a, b) -> value or None (arithmetic on bit vectors)
         self.unknown_call = None           # fn(interp, name, args, term) -> value or None: last resort for calls without a model
+        self.symbolic_len = False          # Vec::len of a non-empty abstract collection is an unknown number
+        self.callable_hook = None          # fn(interp, callee_value, args) -> value or None: calling a value that is not a closure
         self.trace = []
 
     # ---- nondeterminism --------------------------------------------------------------------------------------------
@@ -331,12 +333,17 @@ class Interp:
             if a[1] is None or b[1] is None:
                 if op in ('Lt', 'Le', 'Gt', 'Ge', 'Eq', 'Ne'):
                     return ('bool', None)        # unknown; only resolved (by enumeration) if control flow depends on it
+                if op.endswith('WithOverflow'):
+                    return ('tuple', [Cell(('int', None)), Cell(mk_bool(False))])
                 return ('int', None)
             x, y = a[1], b[1]
             if op in ('Lt', 'Le', 'Gt', 'Ge', 'Eq', 'Ne'):
                 return mk_bool({'Lt': x < y, 'Le': x <= y, 'Gt': x > y, 'Ge': x >= y, 'Eq': x == y, 'Ne': x != y}[op])
+            if op.endswith('WithOverflow'):
+                v = {'AddWithOverflow': x + y, 'SubWithOverflow': x - y, 'MulWithOverflow': x * y}.get(op)
+                return ('tuple', [Cell(('int', v)), Cell(mk_bool(v is not None and v < 0))])
             try:
-                return ('int', {'Add': x + y, 'Sub': x - y, 'Mul': x * y, 'AddWithOverflow': x + y, 'SubWithOverflow': x - y}[op])
+                return ('int', {'Add': x + y, 'Sub': x - y, 'Mul': x * y}[op])
             except KeyError:
                 return ('int', None)
         if a[0] in ('ts', 'dur') and b[0] == a[0] and op in ('Lt', 'Le', 'Gt', 'Ge', 'Eq', 'Ne'):
@@ -487,6 +494,10 @@ class Interp:
                 return self.model_call(clo[1], args, None, depth)
             return self.run_body(body, args, depth + 1)
         if clo[0] != 'closure':
+            if self.callable_hook is not None:
+                r = self.callable_hook(self, clo, args)
+                if r is not None:
+                    return r
             raise Unmodelled('call of non-closure %r' % (clo[0],))
         body = self.facts.bodies.get(clo[1])
         if body is None:
@@ -723,6 +734,10 @@ class Interp:
         if a[0] == 'int' and b[0] == 'int' and a[1] is not None and b[1] is not None:
             x, y = a[1], b[1]
             return mk_bool({'eq': x == y, 'ne': x != y, 'lt': x < y, 'le': x <= y, 'gt': x > y, 'ge': x >= y}[seg])
+        if a[0] in ('const', 'opaque') and b[0] in ('const', 'opaque'):
+            if any(x[0] == 'const' and (x[1].startswith('tracing') or 'tracing_core' in x[1] or x[1].startswith('log::')) for x in (a, b)):
+                return mk_bool(False)    # log-level gates: logging is not part of any trace
+            return ('bool', None)        # named constants of other crates: unknown, explored both ways if it matters
         raise Unmodelled('comparison %s on %s / %s' % (seg, a[0], b[0]))
 
     def model_option(self, name, seg, A, depth):
@@ -1123,8 +1138,8 @@ class Interp:
             if seg == 'pop':
                 return mk_option(xs.pop()) if xs else mk_option(None)
             if seg == 'len':
-                # the abstract collection stands for collections of any size with this shape: its length is not a known number
-                return ('int', None) if xs else ('int', 0)
+                # (symbolic_len) the abstract collection stands for collections of any size with this shape: its length is not a known number
+                return ('int', None) if (xs and self.symbolic_len) else ('int', len(xs))
             if seg == 'is_empty':
                 return mk_bool(not xs)
             if seg == 'clear':
@@ -1183,6 +1198,8 @@ class Interp:
         h = ty_head(ty)
         if h in ('std::collections::hash::set::HashSet', 'alloc::collections::btree::set::BTreeSet'):
             return ('set', {self.key_of(x) for x in xs})
+        if h.endswith('::FuturesUnordered') or h.endswith('::FuturesOrdered'):
+            return ('futs', list(xs))
         if h in ('std::collections::hash::map::HashMap', 'alloc::collections::btree::map::BTreeMap'):
             m = MapObj('hash' if 'hash' in h else 'btree')
             for x in xs:
